@@ -36,17 +36,41 @@ DESC = {
  ("wt_C06",2):("C07","lzhuf","window mirror copy _F-1 -> _F-2","code starting at ring index 2047 after >= 2107 bytes with a 59-byte agreement"),
  ("wt_C06",3):("C08","lzhuf","Close size check != weakened to >","declared size smaller than what the stream decodes to, or negative"),
  ("wt_C06",4):("C06","lzhuf","byte-wise pre-fill replaced by copy + InsertNode loop","first 60 bytes arriving in more than one Write, input starting with spaces"),
+ ("wt2_D",1):("C09","fbb","body and its terminating CRLF written only when the body is non-empty","empty body together with a non-empty attachment"),
+ ("wt2_D",2):("C09","fbb","winlink.org domain test by HasSuffix on the whole address","SMTP address whose domain merely ends in winlink.org (bob@mywinlink.org)"),
+ ("wt2_D",3):("C16","fbb","auxiliary address gets addr|resp whenever the callback returns no error (empty password included)","callback returning (\"\", nil) for an auxiliary address"),
+ ("wt2_D",4):("C16","fbb","password TrimSpace'd before hashing","password with leading/trailing blank, TAB or LF"),
+ ("wt2_D",5):("C18","fbb","remainder after a wrap is TrimLeft'ed of blanks","line longer than 998 bytes with a blank exactly at the wrap offset"),
+ ("wt2_E",1):("C10","mailbox","private headers stripped before the CMS branch tests X-P2POnly","P2P-only message and a CMS query"),
+ ("wt2_E",2):("C10","mailbox","already-in-inbox check moved before the send-only check","send-only handler and a MID already in the inbox"),
+ ("wt2_E",3):("C11","mailbox","temporary file named <MID>.tmp.b2f (carries the message extension)","crash between creating the temporary file and the rename"),
+ ("wt2_E",4):("C12","mailbox","MID whitelist regexp without the $ anchor","MID starting with a letter and containing a slash later (A/../../../x)"),
+ ("wt2_F",1):("C13","transport/ax25/agwpe","disconnect subscription moved to the port-level demux","established connection and a 'd' frame for a different station on the same port"),
+ ("wt2_F",2):("C13","transport/ax25/agwpe","digipeater field reuses one callsign buffer without clearing","two digipeaters, the later one shorter than the earlier one"),
+ ("wt2_F",3):("C14","transport/ardop","retry loop falls through to 'return n, nil' after the third CRCFAULT","three consecutive CRCFAULT replies to one Write"),
+ ("wt2_F",4):("C14","transport/ardop","PTT forwarded only when the requested state changes","PTT sequence with two equal consecutive values or starting with FALSE"),
+ ("wt2_F",5):("C15","transport/telnet","a buffered leading LF after the password line is discarded","first post-login payload byte is LF and arrives with the password line"),
+ ("wt2_F",6):("C19","transport","digipeaters upper-cased through the loop copy only","digipeater containing a lower-case letter"),
+ ("wt2_B",1):("C03","fbb","File header split with IndexAny, -1 not handled","valid transfer whose message has a File header without a blank"),
+ ("wt2_B",2):("C03","fbb","SOH header read by its declared length, fields[1] used before the count check","header length byte 0 or <= len(title)"),
+ ("wt2_B",3):("C04","fbb","offset field Atoi error dropped (TrimSpace + ignore)","offset byte substituted by a non-digit, non-NUL byte"),
+ ("wt2_B",4):("C05","fbb","SOH length byte computed from the un-encoded title","outbound message whose subject needs word-encoding"),
+ ("wt2_B",5):("C05","fbb","sort.Stable(byPrecedence) -> sort.Sort","at least 13 queued messages with two or more precedence classes"),
+ ("wt2_A",1):("C01","fbb","any '*** ...' line during the handshake is an error (except MTD Stats)","slave side and a master MOTD line starting with '*'"),
+ ("wt2_A",2):("C01","fbb","SOH length byte = len(un-encoded title)","accepted message with a non-ASCII subject"),
+ ("wt2_A",3):("C02","fbb","FQ written before a ProcessInbound error is returned","storage error on the receiving side"),
+ ("wt2_A",4):("C02","fbb","EOF on the acknowledgement Peek treated as remote quit when remoteNoMsgs is set","peer said FF before the block; link cut after the answer line"),
 }
 results = {}
 for f in ['/tmp/seedfirst.txt'] + sorted(glob.glob('/tmp/seedbatch*.txt')) + sorted(glob.glob('/tmp/seedfinal*.txt')):
     for l in open(f):
-        m = re.match(r'SEED (wt_C\d+)/(\d+): clean-demo=(\d+) build=(\d+) suite=(\d+) demo-with-patch=(\d+) checks:(.*)', l)
+        m = re.match(r'SEED (wt2?_\w+)/(\d+): clean-demo=(\d+) build=(\d+) suite=(\d+) demo-with-patch=(\d+) checks:(.*)', l)
         if m:
             results[(m.group(1), int(m.group(2)))] = dict(clean_demo=int(m.group(3)), build=int(m.group(4)), suite=int(m.group(5)), demo_with_patch=int(m.group(6)), checks=m.group(7).strip(), log=os.path.basename(f))
 rows = []
 for (wt, i), (prop, pkg, change, needs) in sorted(DESC.items(), key=lambda kv: (kv[1][0], kv[0])):
     sd = f'/tmp/{wt}/SEED/{i}'
-    sid = f'{prop}-{wt[3:]}-{i}'
+    sid = f'{prop}-{wt[3:] if wt.startswith("wt_") else "R2"+wt[4:]}-{i}'
     out = f'/verif/seeded/{sid}'
     r = results.get((wt, i))
     if not os.path.isdir(sd) and not os.path.isdir(out):
